@@ -242,18 +242,45 @@ theorem cvcUnwrap_accepts_signed_partial (S : Sig) (L : SigLaws S) (c' : Cvc) (b
 
 /-- a toy signature layer: the public key is the private key twice, every signature is `sigLen` zero octets and verifies -/
 def toySig : Sig :=
-  ⟨fun priv => (.ok, priv ++ priv), fun _ => .ok, fun priv pub => if pub = priv ++ priv then .ok else .badKeypair,
+  ⟨fun priv => if privLenOk priv.length then (.ok, priv ++ priv) else (.badInput, []),
+   fun pub => if pubkeyLenOk pub.length then .ok else .badInput,
+   fun priv pub => if pub = priv ++ priv ∧ privLenOk priv.length = true then .ok else .badKeypair,
    fun _ priv => (.ok, List.replicate (sigLenOfPriv priv.length) 0), fun _ _ _ => .ok⟩
 
+theorem toy_lens (n : Nat) (h : privLenOk n = true) : pubkeyLenOk (n + n) = true := by
+  simp only [privLenOk, privLens_eq] at h
+  have : n = 24 ∨ n = 32 ∨ n = 48 ∨ n = 64 := by simpa using h
+  simp only [pubkeyLenOk, pubLens_eq]
+  rcases this with h | h | h | h <;> simp [h]
+
 example : SigLaws toySig where
-  calc_len := by intro priv pub h; simp only [toySig, Prod.mk.injEq, true_and] at h; rw [← h]; simp; omega
-  calc_keypair := by intro priv pub h; simp only [toySig, Prod.mk.injEq, true_and] at h; simp [toySig, h]
+  calc_len := by
+    intro priv pub h
+    simp only [toySig] at h
+    split at h
+    · simp only [Prod.mk.injEq, true_and] at h; rw [← h]; simp; omega
+    · cases h
+  calc_keypair := by
+    intro priv pub h
+    simp only [toySig] at h ⊢
+    split at h
+    · rename_i hp; simp only [Prod.mk.injEq, true_and] at h; simp [h, hp]
+    · cases h
   keypair_pub := by
     intro priv pub h
     simp only [toySig] at h ⊢
-    by_cases hp : pub = priv ++ priv
-    · subst hp; simp; omega
-    · simp [hp] at h
+    split at h
+    · rename_i hp
+      obtain ⟨h1, h2⟩ := hp
+      subst h1
+      simp only [List.length_append, toy_lens _ h2, if_true, true_and]; omega
+    · cases h
+  pubVal_len := by
+    intro pub h
+    simp only [toySig] at h
+    split at h
+    · assumption
+    · cases h
   sign_len := by intro body priv sig h; simp only [toySig, Prod.mk.injEq, true_and] at h; rw [← h]; simp
   sign_verify := by intros; rfl
 
